@@ -198,7 +198,8 @@ class EmitV3(V3Unit):
         chk(("C12", "C05"), ENC, "ensures", "discovery-exchange-precedes-the-first-request", ok)
         if not ok:
             return "?"
-        probe_id = SInt(z3.Int("clock!1"))          # clock!0 is the operation's request id, clock!1 the probe's
+        cv = self.clock_vals + [SInt(z3.Int("no-clock-read"))] * 3
+        probe_id = cv[1]          # the first clock read is the operation's request id, the second the probe's
         FX = rfc.Forms("x690")
         probe = rfc.v3_message(probe_id, 65507, 4, 3, rfc.usm_params(b"", 0, 0, b"", b"", b"", FX),
                                rfc.scoped_pdu(b"", b"", rfc.pdu(rfc.GET, probe_id, 0, 0, [], FX), FX), FX)
@@ -221,7 +222,7 @@ class EmitV3(V3Unit):
         if not ok:
             return "?"
         data = sent[1][0][1]
-        rid = SInt(z3.Int("clock!0"))
+        rid = cv[0]
         user = SBytes(rt.f_str_ascii(creds.fields["username"].e))
         ctx_engine = given if self.ctx_engine_given else E
         w = rt.wire
@@ -360,14 +361,13 @@ class Timeliness(V3Unit):
         ctx.assume(lift_bool(rt.xtruth(counter.e)))
         FA = rfc.Forms("any", ctx)
         stats = Obj(get_cls(rt, interp, "x690.types:ObjectIdentifier"), {"pyvalue": USM_STATS_UNKNOWN_ENGINE, "_raw_bytes": b""})
-        probe_id = SInt(z3.Int("clock!1"))
-        reply = rfc.v3_message(probe_id, 65507, 0, 3, rfc.usm_params(E, B, Tm, b"", b"", b"", FA),
-                               rfc.scoped_pdu(E, b"", rfc.pdu(rfc.REPORT, 0, 0, 0, [(SOid(rt.oid.lit(interp, stats)), WVal(counter))], FA), FA), FA)
-
         def sender(i, a, k):
             sent.append((a, k))
             if len(sent) == 1:
-                return reply
+                # a conformant agent echoes the probe's message id (the most recent clock read)
+                return rfc.v3_message(self.clock_vals[-1], 65507, 0, 3, rfc.usm_params(E, B, Tm, b"", b"", b"", FA),
+                                      rfc.scoped_pdu(E, b"", rfc.pdu(rfc.REPORT, 0, 0, 0,
+                                                                     [(SOid(rt.oid.lit(interp, stats)), WVal(counter))], FA), FA), FA)
             raise PyExc(rt.instantiate(i, tmo, ["stop"], {}))
         client = rt.instantiate(interp, get_cls(rt, interp, "puresnmp.api.raw:Client"), ["192.0.2.1", creds],
                                 {"sender": Builtin("sender", sender)})
@@ -387,7 +387,7 @@ class Timeliness(V3Unit):
         ctx.check(oname("C12", T, "ensures", "no-second-discovery-needed-and-one-datagram-per-request"), ok)
         if not ok:
             return "?"
-        rid2 = SInt(z3.Int("clock!2"))
+        rid2 = self.clock_vals[2] if len(self.clock_vals) > 2 else SInt(z3.Int("no-clock-read"))
         user = SBytes(rt.f_str_ascii(creds.fields["username"].e))
         w = rt.wire
         hname = rt.str_lit("md5")
@@ -451,6 +451,8 @@ class ReceiveV3(V3Unit):
         hashname, priv = LEVELS[level]
         if mode == "authentic-minimal":
             self.props = ("C10",) + (("C11",) if priv else ())
+        elif mode == "any-error":
+            self.props = ("C08", "C20") + (("C11",) if priv and encrypted else ())
         else:
             self.props = ("C06", "C08", "C20") + (("C09",) if hashname else ()) + (("C11",) if priv and encrypted else ())
         self.name = "v3 %s incoming[%s payload, %d bindings, %s]" % (level, "encrypted" if encrypted else "plain", k, mode)
@@ -486,6 +488,10 @@ class ReceiveV3(V3Unit):
 
         def incoming(ap, F):
             return rfc.v3_message(msgid, maxsize, flags, 3, rfc.usm_params(E, B, Tm, user, ap, privp, F), payload_in, F)
+        if self.mode == "any":
+            ctx.assume(es.eq(0))          # (agent error statuses: the 'any-error' units)
+        elif self.mode == "any-error":
+            ctx.assume(Not(es.eq(0)))
         raw = incoming(authp, FA)
         kul = rt.f_kul(hname, w.z(creds.fields["auth"][0]), E.e) if hashname else None
         if minimal:
@@ -663,4 +669,8 @@ def units_rx(tier):
         us.append(ReceiveV3(lv, priv, 1, "authentic-minimal"))
     us.append(ReceiveV3("authPriv-md5", True, 2, "any"))
     us.append(ReceiveV3("authNoPriv-sha1", False, 0, "any"))
+    us.append(ReceiveV3("noAuthNoPriv", False, 1, "any-error"))
+    us.append(ReceiveV3("authNoPriv-md5", False, 1, "any-error"))
+    us.append(ReceiveV3("authPriv-sha1", True, 1, "any-error"))
+    us.append(ReceiveV3("authPriv-md5", False, 0, "any-error"))
     return us
